@@ -50,6 +50,8 @@ type Prop struct {
 
 var registry = map[string]*Prop{}
 
+var procStart = time.Now()
+
 func Register(p *Prop) {
 	if p.Level == "" {
 		p.Level = "model_checking"
@@ -165,6 +167,9 @@ func (r *Run) Expired() bool {
 // Section starts a named part of the enumeration. Sections should be ordered
 // by increasing bound so that "largest complete section" is meaningful.
 func (r *Run) Section(name string) {
+	if os.Getenv("VERIF_SECTION_TIMES") != "" {
+		fmt.Fprintf(os.Stderr, "[%s] section %q starts at %s evals=%d\n", r.Prop.ID, name, time.Since(procStart).Round(time.Millisecond), r.res.Evaluations)
+	}
 	r.endSection()
 	r.res.Sections = append(r.res.Sections, Section{Name: name})
 	r.sec = &r.res.Sections[len(r.res.Sections)-1]
